@@ -352,7 +352,7 @@ pub fn run(ctx: &Ctx) -> i32 {
         (None, Some(what)) => viol.push(Violation { sig: SIG_KNOWN.into(), lane: "witness".into(), case: json!({}), message: what.clone() }),
         _ => {}
     }
-    let (shards, cases) = ctx.tier.pick((8, 800), (64, 12_000));
+    let (shards, cases) = ctx.tier.pick((16, 3200), (64, 12_000));
     let strat = || {
         (iface_strategy(CFG), prop_oneof![4 => Just(Form::Owned), 1 => Just(Form::Borrowed), 3 => Just(Form::Parsed)], layout_strategy())
             .prop_map(|(iface, form, layout)| Case { iface, form, layout })
